@@ -230,6 +230,31 @@ def hostile_config(rng, base):
     return json.dumps(conf, indent=1), kind
 
 
+def sweep_file(k, fields):
+    """A well-formed project whose body struct carries the given (go type, validate tag) fields."""
+    body = "\n".join("\tF%d %s `json:\"f%d\" validate:%s`" % (i, t, i, json.dumps(tag)) for i, (t, tag) in enumerate(fields))
+    return ("package hctl\n\nimport (\n\t\"github.com/gopher-fleece/runtime\"\n)\n\n// @Tag(S%d)\n// @Route(/s%d)\n"
+            "type HCtl%d struct {\n\truntime.GleeceController\n}\n\ntype Sweep struct {\n%s\n}\n\n"
+            "// @Method(POST)\n// @Route(/sweep)\n// @Body(b)\nfunc (c *HCtl%d) Sweep(b Sweep) (Sweep, error) {\n\tpanic(\"x\")\n}\n"
+            % (k, k, k, body, k))
+
+
+def sweep_projects(rng, start, tier):
+    """Every hostile tag on every field kind (string / int / []string / bool), a few fields per project."""
+    pairs = [(t, tag) for tag in HOSTILE_TAGS for t in ("string", "int", "[]string", "float64")]
+    rng.shuffle(pairs)
+    if tier == "quick":
+        per = 12
+    else:
+        per = 4
+    out = []
+    for i in range(0, len(pairs), per):
+        chunk = pairs[i:i + per]
+        out.append({"source": sweep_file(start + len(out), chunk), "k": start + len(out), "sweep": chunk,
+                    "config_kind": "valid", "command": ["generate", "spec-and-routes"], "force_valid_config": True})
+    return out
+
+
 COMMANDS = [["generate", "spec-and-routes"], ["generate", "spec"], ["generate", "routes"],
             ["dump", "graph", "-f", "dot"], ["dump", "graph", "-f", "plain"]]
 
@@ -267,6 +292,7 @@ def main():
     else:
         for k in range(nproj):
             projects.append({"source": hostile_file(rng, k), "k": k})
+        projects += sweep_projects(rng, len(projects), a.tier)
     base = {
         "commonConfig": {"controllerGlobs": ["./hctl/*.go"]},
         "routesConfig": {"engine": "gin", "outputPath": "./dist/routes.go", "outputFilePerms": "0644", "packageName": "routes",
@@ -284,8 +310,11 @@ def main():
             b = json.loads(json.dumps(base))
             b["routesConfig"]["engine"] = rng.choice(["gin", "echo", "mux", "chi", "fiber"])
             b["openapiGeneratorConfig"]["openapi"] = rng.choice(["3.0.0", "3.1.0"])
-            pr["config"], pr["config_kind"] = hostile_config(rng, b)
-            pr["command"] = rng.choice(COMMANDS)
+            if pr.get("force_valid_config"):
+                pr["config"] = json.dumps(b, indent=1)
+            else:
+                pr["config"], pr["config_kind"] = hostile_config(rng, b)
+                pr["command"] = rng.choice(COMMANDS)
         open(os.path.join(root, "gleece.config.json"), "w").write(pr["config"])
     # only projects that load (compile) are in the property's domain
     p = run(["go", "vet", "./..."], cwd=moddir, env=GOENV, check=False, timeout=900)
@@ -335,6 +364,21 @@ def main():
         if reported >= 3:
             continue
         reported += 1
+        if pr.get("sweep") and len(pr["sweep"]) > 1:
+            # shrink: find one field that alone reproduces the same outcome class
+            for fld in pr["sweep"]:
+                d = os.path.join(moddir, "shrink")
+                shutil.rmtree(d, ignore_errors=True)
+                os.makedirs(os.path.join(d, "hctl"))
+                src1 = sweep_file(9999, [fld])
+                open(os.path.join(d, "hctl", "c.go"), "w").write(src1)
+                open(os.path.join(d, "gleece.config.json"), "w").write(pr["config"])
+                r1 = P.run_cli_one({"dir": d, "args": pr["command"] + ["-c", "gleece.config.json"], "timeout": TIMEOUT})
+                if classify(r1) == c:
+                    pr = dict(pr, source=src1, sweep=[fld])
+                    r = r1
+                    sig = crash_signature(r["out"])
+                    break
         res.violation({"kind": "property-fails-on-implementation", "class": c, "signature": sig,
                        "input": {"source": pr["source"], "config": pr["config"], "command": pr["command"]},
                        "cli_exit": r["exit"], "cli_output": r["out"][-3000:], "wall_s": r["wall"],
